@@ -217,7 +217,7 @@ def _cont(cid, k, subs, name=None, default=None, policy="subset", minreq=False):
 class C08(Property):
     id = "C08"
     title = "The element tree stays a tree: parent, children, root and path agree"
-    proof_module = "Proofs.C08TreeExamples"
+    proof_module = "Proofs.C08Rejected"
     theorems = [
         "Flatland.C08.Proofs.c08_full",
         "Flatland.C08.Proofs.inv_init",
@@ -253,6 +253,13 @@ class C08(Property):
         "Flatland.C08.Proofs.seqStep_placed",
         "Flatland.C08.Proofs.mapSetItem_placed",
         "Flatland.C08.Proofs.mapUpdateArgs_placed",
+        # failure paths: a rejected call of the model changes nothing (round h8)
+        "Flatland.C08.Proofs.rejected_step_unchanged",
+        "Flatland.C08.Proofs.rejected_node_unchanged",
+        "Flatland.C08.Proofs.rejected_seq_unchanged",
+        "Flatland.C08.Proofs.rejected_map_unchanged",
+        "Flatland.C08.Proofs.extend_keeps_prefix",
+        "Flatland.C08.Proofs.setitem_plain_sets_in_place",
         # the added hypotheses are needed (negation witnesses on the model)
         "Flatland.C08.Proofs.uniqueIds_needs_keys",
         "Flatland.C08.Proofs.uniqueIds_needs_below",
@@ -281,7 +288,14 @@ class C08(Property):
                   "of the declared field class, for update the one given last per key) is afterwards a direct child of the "
                   "target with the same identity and subtree, its stored parent pointer designating the container (through a "
                   "slot that the List lists and that points to the List). HYPOTHESES beyond the property text, each with a "
-                  "negation witness: keys unique in every mapping node and mapping class (kok, decidable, preserved: the "
+                  "negation witness (see below). FAILURE PATHS (round h8): rejected_step_unchanged — a call of the model on a rejection "
+                  "route (seqAtomic / mapAtomic = g1common.atomic_route: everything but extend/+=/*=/update/|=/set/set_default, "
+                  "an in-place `lst[i] = plain` with a valid index, assignment of a present/declared key, key-less sort; "
+                  "witnesses extend_keeps_prefix, setitem_plain_sets_in_place) that raises returns the WHOLE tree as it was — "
+                  "structure, identities, stored parents, slot names — and reports nothing as detached; tied to the code by the "
+                  "rejected calls with plain / fresh / pooled arguments in the compared histories and, for live arguments "
+                  "(members of a live tree handed in: aliasing, not representable in the model), by the oracle clause "
+                  "rejected-changes-nothing on every kept tree. Hypotheses: keys unique in every mapping node and mapping class (kok, decidable, preserved: the "
                   "model's dict assignment overwrites every child under the key — uniqueIds_needs_keys), arguments below the "
                   "counter (uniqueIds_needs_below), no aliasing (uniqueIds_needs_fresh). ORACLE ONLY: set_flat/from_flat/"
                   "from_object routes; Compound/JoinedString nodes; model paths answering `unsupported`")
@@ -291,7 +305,16 @@ class C08(Property):
         "CPython list/dict semantics as in lean/Flatland/PyList.lean (shared with C09/C10)",
     ]
     assumptions = [
-        "Element arguments are fresh or detached elements; an Element that is already in the tree handed in again "
+        "LIVE Element arguments (round h8, oracle only): a current member of the same container, of another container or of "
+        "a second tree the case keeps alive is handed to item / slice assignment, insert, append, extend, +=, update, |=. "
+        "A REJECTED call must change nothing on any kept tree (rejected-changes-nothing; the unchanged library violates "
+        "it on the routes of KF-C08-b). A SUCCESSFUL one makes the element a child of the target (placed-is-child); the "
+        "library does not take it out of its old container (`b.append(a[1])` leaves a[1] listed by a, its parent pointing "
+        "into b): the property text neither says that placing removes nor can a parent pointer designate two holders, so "
+        "for such ALIASED elements and what hangs below them only the agreement of root / parents / path with one another "
+        "is asserted until one container lists them again (Exec.heal); every other element of every kept tree is under "
+        "the full clauses",
+        "Element arguments of the THEOREMS are fresh or detached elements; an Element that is already in the tree handed in again "
         "(`l.append(l[0])`) is aliasing that no tree can represent and is outside the quantifier: the theorems state it "
         "as `ArgsFresh` (identities of the placed arguments disjoint from the tree and from one another, below the "
         "allocation counter) and `ArgWP` (internally well-parented); uniqueness of identities is then a proved invariant",
@@ -314,7 +337,7 @@ class C08(Property):
             "(sequence op or mapping op according to its kind), with plain values, fresh Elements and Elements "
             "detached by earlier calls or owned by another container; cases the Lean model does not cover (flat routes, "
             "model paths answering unsupported) are marked oracle-only before the run and are not counted as validated "
-            "traces (tag model=oracle-only); Reading is part of the history: Element arguments (fresh, foreign-owned, pooled, populated subtrees) have root/path/parents/fq_name READ before they are handed over in half of the cases, and 'observe' steps read every reachable and every detached element; 15 % of nested mapping classes are derived from an already used parent class with another field list. non-trivial = the tree has at least 4 elements at some point and at least 3 "
+            "traces (tag model=oracle-only); Reading is part of the history: Element arguments (fresh, foreign-owned, pooled, populated subtrees) have root/path/parents/fq_name READ before they are handed over in half of the cases, and 'observe' steps read every reachable and every detached element; 15 % of nested mapping classes are derived from an already used parent class with another field list. 30 % of the histories (tag fp:case, oracle only) exercise FAILURE / RECOVERY paths: a second tree of the root class kept alive (75 %), a third of the calls aimed at it, live members of either tree (same container / another container / other tree; 10 % of any class) as arguments of item and slice assignment, insert, append, extend, +=, mapping item assignment and update, rejected calls (out-of-range and non-integer indexes, extended-slice size mismatches, items the member schema rejects, undeclared keys, a sort key that raises) with plain, fresh, pooled and live arguments, each followed by the full observation of every kept tree and by calls that succeed; non-trivial = the tree has at least 4 elements at some point and at least 3 "
             "calls changed it")
     quick_n = 30000
     thorough_n = 250000
@@ -374,6 +397,53 @@ class C08(Property):
                             {"t": 2, "s": {"op": "append", "a": {"new": "q", "touch": True}}, "m": {"op": "observe"}},
                             {"t": 0, "s": {"op": "pop", "i": 0}}, {"t": 0, "s": {"op": "observe"}},
                             {"t": 0, "s": {"op": "append", "a": {"pool": 0, "touch": True}}}]})
+        # failure paths (round h8; oracle only).  Seeded mutation C08-setitem-reparents-before-index-check: a REJECTED
+        # `dst[9] = src[1]` / `dst['1'] = src[1]` (dst a List of the second tree, src the main List; then inside ONE
+        # list) must leave both trees as they were; the history goes on with calls that succeed
+        nums = _cont(1, "list", [_sc(2, "integer", "n")], name="numbers")
+        lv = lambda tree, k, where="any": {"live": {"tree": tree, "k": k, "where": where}}
+        out.append({"schema": nums, "nomodel": True, "aux": [{"value": {"l": [10, 20]}}],
+                    "init": {"route": "ctor_value", "value": {"l": [1, 2, 3]}},
+                    "ops": [{"t": 0, "tt": 1, "s": {"op": "setitem", "i": 1, "a": {"new": 99}}},
+                            {"t": 0, "tt": 1, "s": {"op": "setitem", "i": 7, "a": lv(0, 0)}},
+                            {"t": 0, "tt": 1, "s": {"op": "setitem", "i": 1, "ix": "str", "a": lv(0, 1)}},
+                            {"t": 0, "s": {"op": "setitem", "i": 9, "a": lv(0, 1, "same")}},
+                            {"t": 0, "s": {"op": "setitem", "i": -9, "a": {"new": 5, "touch": True}}},
+                            {"t": 0, "s": {"op": "sort", "key": "raise", "rev": False}},
+                            {"t": 0, "s": {"op": "append", "a": {"v": 4}}},
+                            {"t": 0, "tt": 1, "s": {"op": "pop", "i": 0}},
+                            {"t": 0, "s": {"op": "observe"}}]})
+        # open KF-C08-b: rejected placements that re-parent a live argument on the UNCHANGED library — Array item
+        # assignment out of range, insert with an index that is no integer (Array and List), extended-slice size mismatch
+        arr = _cont(1, "array", [_sc(2, "integer", "n")], name="arr")
+        out.append({"schema": arr, "nomodel": True, "aux": [{"value": {"l": [10, 20]}}],
+                    "init": {"route": "ctor_value", "value": {"l": [1, 2, 3]}},
+                    "ops": [{"t": 0, "tt": 1, "s": {"op": "setitem", "i": 9, "a": lv(0, 1)}},
+                            {"t": 0, "s": {"op": "append", "a": {"v": 4}}}]})
+        out.append({"schema": arr, "nomodel": True, "aux": [{"value": {"l": [10, 20]}}],
+                    "init": {"route": "ctor_value", "value": {"l": [1, 2, 3]}},
+                    "ops": [{"t": 0, "tt": 1, "s": {"op": "insert", "i": 0, "ix": "str", "a": lv(0, 1)}}]})
+        out.append({"schema": nums, "nomodel": True, "aux": [{"value": {"l": [10, 20, 30, 40]}}],
+                    "init": {"route": "ctor_value", "value": {"l": [1, 2, 3]}},
+                    "ops": [{"t": 0, "tt": 1, "s": {"op": "insert", "i": 0, "ix": "none", "a": lv(0, 1)}},
+                            {"t": 0, "tt": 1, "s": {"op": "setslice", "sl": [None, None, 2], "as": [lv(0, 2)]}},
+                            {"t": 0, "s": {"op": "append", "a": {"v": 4}}}]})
+        # a SUCCESSFUL move of a live member (aliasing: the old List still lists it), then it is taken out of the old
+        # List (one holder again: the full clauses apply), and a rejected mapping assignment with a live argument
+        out.append({"schema": nums, "nomodel": True, "aux": [{"value": {"l": [10, 20]}}],
+                    "init": {"route": "ctor_value", "value": {"l": [1, 2, 3]}},
+                    "ops": [{"t": 0, "tt": 1, "s": {"op": "append", "a": lv(0, 1)}},
+                            {"t": 0, "s": {"op": "delitem", "i": 1}},
+                            {"t": 0, "tt": 1, "s": {"op": "reverse"}},
+                            {"t": 0, "s": {"op": "extend", "as": [lv(1, 0), {"v": 7}]}},
+                            {"t": 0, "s": {"op": "observe"}}]})
+        sp = _cont(1, "sparse", [_sc(2, "integer", "a"), _sc(3, "integer", "b")])
+        out.append({"schema": sp, "nomodel": True, "aux": [{"value": {"d": [["a", 5]]}}],
+                    "init": {"route": "ctor_value", "value": {"d": [["a", 1]]}},
+                    "ops": [{"t": 0, "tt": 1, "m": {"op": "setitem", "k": "zz", "a": lv(0, 0)}},
+                            {"t": 0, "tt": 1, "m": {"op": "update_items", "form": "pairs", "items": [["a", lv(0, 0)], ["zz", {"v": 3}]]}},
+                            {"t": 0, "m": {"op": "setdefault", "k": "q", "d": 1}},
+                            {"t": 0, "m": {"op": "setitem", "k": "b", "a": {"v": 2}}}]})
         # oracle-only construction routes
         out.append({"schema": _cont(1, "list", [_cont(2, "dict", [_sc(3, "integer", "x")])], name="l"),
                     "init": {"route": "from_flat", "pairs": [["l_0_x", "1"], ["l_2_x", "2"], ["l_1_x", "z"]]},
